@@ -181,7 +181,10 @@ HDgetdatainfo(int32 file_id, uint16 tag, uint16 ref, int32 *chk_coord, unsigned 
             /* This is a compressed element */
             if (sp_tag == SPECIAL_COMP) {
                 /* Read compression info header */
-                if (HP_read(file_rec, lbuf, (int)COMP_HEADER_LENGTH) == FAIL)
+                /* only the version, the uncompressed length and the ref# of the compressed data
+                   are needed; the special code has been consumed already, and reading the full
+                   COMP_HEADER_LENGTH from here would run past a header that ends the file */
+                if (HP_read(file_rec, lbuf, (int)8) == FAIL)
                     HGOTO_ERROR(DFE_READERROR, FAIL);
 
                 /* Decode header to get data length */
